@@ -632,16 +632,18 @@ class TextXVisitor(RRELVisitor):
             rule_params = {}
 
         if root_rule.rule_name.startswith("__asgn") or (
-            isinstance(root_rule, (Match, RuleCrossRef)) and rule_params
+            rule_params and not isinstance(root_rule, Sequence)
         ):
             # If it is assignment node it must be kept because it could be
             # e.g. single assignment in the rule.
-            # Also, handle a special case where rule consists only of a single
-            # match or single rule reference and there are rule modifiers
-            # defined.
+            # Also, rule modifiers are applied by sequences and ordered
+            # choices only. If the rule body is anything else (e.g. a single
+            # match, a rule reference or a repetition) wrap it.
             root_rule = Sequence(
                 nodes=[root_rule], rule_name=rule_name, root=True, **rule_params
             )
+            if "split" in rule_params:
+                root_rule.split = rule_params["split"]
         else:
             if not isinstance(root_rule, RuleCrossRef):
                 # Promote rule node to root node.
